@@ -153,7 +153,14 @@ fn spawner_body(hw: SystemHardware, sched: Scheduler, processor: usize, ops: Vec
             }),
         }
     }
-    let kept = if keep { Some(sched) } else { None };
+    let kept = if keep {
+        Some(sched)
+    } else {
+        // Release the scheduler before awaiting: once the pool is gone too, abandoned tasks are
+        // dropped with the pool's shared state and their handles resolve with a panic.
+        drop(sched);
+        None
+    };
     let mut out = Vec::new();
     for (id, h) in handles {
         match block_on(h) {
@@ -312,20 +319,25 @@ fn programs(thorough: bool) -> Vec<(Program, usize)> {
     for (concurrent_drop, keep_scheduler) in [(false, false), (true, false), (true, true)] {
         // one spawner, one processor, one worker: the core programs get the deepest bound
         v.push((Program { processors: 1, workers_per_processor: 1, spawners: vec![(0, vec![Regular])], concurrent_drop, keep_scheduler }, deep));
-        for ops in seqs1.iter().skip(1).chain(seqs2.iter()) {
+        let more: Vec<Vec<SpawnKind>> = if thorough { seqs1.iter().skip(1).chain(seqs2.iter()).cloned().collect() } else { vec![vec![Forget], vec![Urgent, Regular]] };
+        for ops in &more {
             v.push((Program { processors: 1, workers_per_processor: 1, spawners: vec![(0, ops.clone())], concurrent_drop, keep_scheduler }, wide));
         }
         // two workers on the processor
-        for ops in seqs1.iter().chain(if thorough { seqs2.iter() } else { [].iter() }) {
+        let w2: Vec<Vec<SpawnKind>> = if thorough { seqs1.iter().chain(seqs2.iter()).cloned().collect() } else { vec![vec![Regular]] };
+        for ops in &w2 {
             v.push((Program { processors: 1, workers_per_processor: 2, spawners: vec![(0, ops.clone())], concurrent_drop, keep_scheduler }, wide));
         }
         // two spawners, same processor / different processors
         let pairs: Vec<(Vec<SpawnKind>, Vec<SpawnKind>)> = if thorough {
             seqs1.iter().flat_map(|a| seqs1.iter().map(move |b| (a.clone(), b.clone()))).collect()
         } else {
-            vec![(vec![Regular], vec![Regular]), (vec![Regular], vec![Forget])]
+            vec![(vec![Regular], vec![Regular])]
         };
         for (pa, pb, procs) in [(0, 0, 1), (0, 1, 2)] {
+            if !thorough && concurrent_drop && !keep_scheduler && procs == 1 {
+                continue;
+            }
             for (a, b) in &pairs {
                 v.push((Program { processors: procs, workers_per_processor: 1, spawners: vec![(pa, a.clone()), (pb, b.clone())], concurrent_drop, keep_scheduler }, wide));
             }
